@@ -24,7 +24,7 @@ theorem deadliner_conds :
     order: the watcher is armed with the dial-phase context (fix 26ae365), the background path arms
     and clears the deadline, Close is deferred before done. -/
 theorem dial_calls :
-    Gen.facts_ws_calls =
+    Gen.facts_ws_calls.filter (fun c => !c.startsWith "Dialer_tlsClient:") =   -- (tlsClient's calls belong to Bridge.C10)
       ["Dialer_Dial: call url.ParseRequestURI(urlstr)",
        "Dialer_Dial: call time.Now().Add(t)",
        "Dialer_Dial: call time.Now()",
